@@ -11,7 +11,11 @@ pub fn main(args: &[String]) -> i32 {
 	let mut oracle = String::new();
 	let mut dist: BTreeMap<String, u64> = BTreeMap::new();
 	let mut distinct = std::collections::HashSet::new();
-	for _ in 0..count {
+	for case_no in 0..count {
+		let mut rng = crate::util::case_rng(seed ^ 0xC09E, case_no);
+		if crate::util::skip_case(case_no) {
+			continue
+		}
 		let bits: u8 = match rng.below(8) {
 			0 => 16,
 			1 => 17,
